@@ -1594,6 +1594,17 @@ def gen_linkto_programs(r, n):
         for f2 in "sa":
             ops.append(f"read {f2} c0 {hx(key)}")
             ops.append(f"read_hash {f2} c0 {st}")
+        # extraction of the linked entry after the change: whatever the entry point (checked / unchecked copy and
+        # hard link), success must leave the LINKED bytes at the destination; a vanished target is missing content
+        ext = []
+        if mode in ("oneshot", "partial", "relink", "oneshot_hash") and r.chance(0.7):
+            for xi, xop in enumerate(r.sample(["hard_link_hash_unchecked s", "hard_link_hash s", "copy_hash_unchecked s",
+                                               "copy_hash a", "hard_link_hash_unchecked s"], 2)):
+                ops.append(f"{xop} c0 {st} out/x{i}_{xi}")
+                ops.append(f"cat out/x{i}_{xi}")
+                ops.append(f"stat out/x{i}_{xi}")
+                ext.append(len(ops) - 3)
+        tags["ext"] = ext
         tags.update(mode=mode, link=link, obs=obs, late=late, change=change)
         progs.append(Program(f"link{i}", ops, tags=tags))
     return progs
@@ -1649,6 +1660,22 @@ def mon_linkto(rr):
         if c2[0] != "ok" or unhx(c2[1]) != d:
             got = "missing" if c2[0] != "ok" else f"{len(unhx(c2[1]))} bytes"
             out.append(Failure("target_modified", ot, f"{rr.prog.ops[ot - 1].split(' ')[0]} of the linked entry onto its own target left the target {got}", sig=sig))
+    for j in t.get("ext", []):
+        if j + 2 >= len(rr.impl):
+            break
+        xr, xc, xs = toks(rr.impl[j]), toks(rr.impl[j + 1]), norm(rr.impl[j + 2])
+        xsig = dict(sig, op=rr.prog.ops[j].split(" ")[0], change=t["change"])
+        unchecked = "unchecked" in rr.prog.ops[j].split(" ")[0]
+        if unchecked and t["change"] == "modify":
+            continue          # an unchecked extraction hands out whatever the (changed) target holds now
+        if xr[0] == "ok":
+            if xc[0] != "ok" or unhx(xc[1]) != d:
+                got = "nothing readable" if xc[0] != "ok" else "other bytes"
+                out.append(Failure("extraction_wrong", j, f"{rr.prog.ops[j].split(' ')[0]} of a linked entry (target: {t['change']}) "
+                                   f"answered ok but the destination holds {got} ({xs})", sig=xsig))
+        elif xs != "ok absent":
+            out.append(Failure("extraction_left_behind", j, f"{rr.prog.ops[j].split(' ')[0]} of a linked entry failed "
+                               f"({' '.join(xr[:3])}) but left {xs} at the destination", sig=xsig))
     if t["change"] != "none" and t["mode"] != "preexisting":
         for j in range(t["late"], min(len(rr.impl), t["late"] + 4)):
             rj = toks(rr.impl[j])
